@@ -380,6 +380,11 @@ class Interp:
         if k == "Pool":
             from .nplib import PoolVal
             return PoolVal()
+        if k == "IDict":
+            # dict with int keys inserted in the order -1, 0, 1, ...:
+            # the values in insertion order (position p <-> key p - 1)
+            seq = self.fresh_seq(p[1], name)
+            return Cell("idict", seq)
         if k == "Tbl":
             # 2-D table: rows -> abstract row values of sort p[1]
             seq = self.fresh_seq(f"Sort({p[1]})", name)
@@ -526,6 +531,28 @@ class Interp:
     def exec_stmt(self, st, env):
         self.cur_line = getattr(st, "lineno", self.cur_line)
         self.cur_env = env
+        if len(self.func_stack) == 1 and self.contract.hints and \
+                not isinstance(st, (ast.If, ast.For, ast.While, ast.With,
+                                    ast.Try, ast.FunctionDef)):
+            # proof hints (lemma instances) anchored before a statement of
+            # the verified function: ("before_stmt", <substring of the
+            # statement's source>, <lemma expression over the locals>)
+            src = None
+            for anchor, pat, hexpr in self.contract.hints:
+                if anchor != "before_stmt":
+                    continue
+                if src is None:
+                    src = ast.unparse(st)
+                if pat in src:
+                    saved_old = self.old_env
+                    self.old_env = getattr(self, "entry_old", saved_old)
+                    try:
+                        h = self.eval_spec(hexpr, env)
+                    finally:
+                        self.old_env = saved_old
+                    if h is not None and not isinstance(h, bool):
+                        self.sum_lemmas(bz(h))
+                        self.assume(bz(h))
         m = getattr(self, "s_" + type(st).__name__, None)
         if m is None:
             raise Unsupported(f"statement {type(st).__name__} at line "
@@ -1268,8 +1295,12 @@ class Interp:
                 env2[node.args[0].id] = bi
                 env2[node.args[2].id] = bk
                 body = bz(self.truth(self.eval(node.args[4], env2)))
-                return z3.ForAll([bi, bk], z3.Implies(
-                    z3.And(0 <= bi, bi < n1, 0 <= bk, bk < n2), body))
+                rng2 = z3.And(0 <= bi, bi < n1, 0 <= bk, bk < n2)
+                # resolve index-normalisation terms under the range, as
+                # `forall` does (otherwise the e-matching patterns contain
+                # if-then-else index terms that never occur in ground terms)
+                body = self.ctx_simplify(rng2, body)
+                return z3.ForAll([bi, bk], z3.Implies(rng2, body))
             if self.spec and fn.id == "Sum":
                 # Sum(k, lo, hi, body): sum over lo <= k < hi
                 lo = self.eval(node.args[1], env)
@@ -1440,6 +1471,9 @@ class Interp:
 
     # ------------------------------------------------- package callables
     def call_method(self, obj, name, args, kwargs, after=None):
+        if self._opaque_callee(f"{obj.cls}.{name}") or \
+                self._opaque_callee(name):
+            return Opaque(f"{obj.cls}.{name}()")
         ci = ClassIndex.get()
         dcls, fn, kind = ci.find_method(obj.cls, name, after=after)
         sh = C.SHAPES.get(getattr(obj, "shape", None) or obj.cls)
@@ -1453,6 +1487,13 @@ class Interp:
             return self.apply_contract(con, fn, obj, args, kwargs)
         info = ci.classes[dcls]
         con = C.CONTRACTS.get((info["file"], f"{dcls}.{name}"))
+        # a contract family (variant name) uses the callee's contract of
+        # the same family when it has one
+        vn = self.contract.variant_name
+        if vn:
+            con = C.CONTRACTS.get(
+                (info["file"], f"{dcls}.{name}#{vn.split('-')[0]}"), con)
+            con = C.CONTRACTS.get((info["file"], f"{dcls}.{name}#{vn}"), con)
         if con is None:
             raise Unsupported(f"call to {dcls}.{name} (line {self.cur_line})"
                               f": no contract")
@@ -1478,7 +1519,21 @@ class Interp:
         self.inline_call(None, fn, obj, [value], {},
                          qual=f"{dcls}.{name}.setter", file=info["file"])
 
+    def _opaque_callee(self, name):
+        """callees the verified function's contract declares irrelevant to
+        the property (statistics for logging / history): the call is not
+        modelled; its result is an uninspected value.  ASSUMED (reported):
+        it terminates normally and does not mutate modelled state."""
+        top = self.contract
+        if len(self.func_stack) == 1 and name in top.extra.get(
+                "opaque_callees", ()):
+            self.stats.lib_used.add(f"opaque-callee:{name}")
+            return True
+        return False
+
     def call_pkg(self, pf, args, kwargs):
+        if self._opaque_callee(pf.qual):
+            return Opaque(f"{pf.qual}()")
         con = C.CONTRACTS.get((pf.file, pf.qual))
         # arrays of abstract points (uninterpreted sort per row) select the
         # callee's "abstract-points" contract variant when it has one
@@ -1487,6 +1542,11 @@ class Interp:
                for a in list(args) + list(kwargs.values())):
             con = C.CONTRACTS.get(
                 (pf.file, pf.qual + "#abstract-points"), con)
+        vn = self.contract.variant_name
+        if vn:
+            con = C.CONTRACTS.get(
+                (pf.file, f"{pf.qual}#{vn.split('-')[0]}"), con)
+            con = C.CONTRACTS.get((pf.file, f"{pf.qual}#{vn}"), con)
         src = Source.get(pf.file)
         fn, _ = src.find(pf.qual)
         if fn is None:
@@ -1687,7 +1747,15 @@ class Interp:
         body = bz(self.truth(self.eval(node.args[3], env2)))
         rng = z3.And(*[z3.And(lo <= bv, bv < hi) for bv in bvs])
         body = self.ctx_simplify(rng, body)
+        pats = []
+        if len(node.args) > 4:
+            # explicit e-matching trigger(s): forall(i, lo, hi, body, t1, ..)
+            for pn in node.args[4:]:
+                t = self.V.lib.as_term(self, self.eval(pn, env2))
+                pats.append(self.ctx_simplify(rng, t, force=True))
         if kind == "forall":
+            if pats:
+                return z3.ForAll(bvs, z3.Implies(rng, body), patterns=pats)
             return z3.ForAll(bvs, z3.Implies(rng, body))
         return z3.Exists(bvs, z3.And(rng, body))
 
@@ -1845,21 +1913,22 @@ def _sum_terms(fs):
 
 
 def _has_var(t):
-    seen = set()
-    stack = [t]
-    while stack:
-        u = stack.pop()
-        if u.get_id() in seen:
-            continue
-        seen.add(u.get_id())
+    """does t contain a de Bruijn variable that is not bound inside t?"""
+    memo = {}
+
+    def go(u, depth):
+        key = (u.get_id(), depth)
+        if key in memo:
+            return memo[key]
         if z3.is_var(u):
-            # a de Bruijn variable not bound inside t?  (lambda bodies bind
-            # their own) -- conservative: look only outside lambdas
-            return True
-        if z3.is_quantifier(u):
-            continue
-        stack.extend(u.children())
-    return False
+            r = z3.get_var_index(u) >= depth
+        elif z3.is_quantifier(u):
+            r = go(u.body(), depth + u.num_vars())
+        else:
+            r = any(go(c, depth) for c in u.children())
+        memo[key] = r
+        return r
+    return go(t, 0)
 
 
 def _term_size(t, limit=400):
